@@ -166,13 +166,22 @@ def run_routes(t):
         s = D.Script()
         pr = C.Problem(s, '', o, d, N, rng)
         q = []
-        acc = rng.uniform(-1, 1)
+        acc = C.dyadic(rng, -1, 1)
         for i in range(N + 1):
-            q.append(s.var('q%d' % i, round(acc, 3)))
-            acc += rng.uniform(0.6, 1.7)
+            q.append(s.var('q%d' % i, acc))      # dyadic shadows: shifted copies have bit-identical differences
+            acc += C.dyadic(rng, 0.6, 1.7)
         for i in range(N):
             s.add('let dq%d sub q%d q%d' % (i, i + 1, i))
         P = pr.flatP()
+        # re-update of a built object with the SAME durations but another start time, other points and boundary states
+        pz = C.Problem(s, 'z', o, d, N, rng)
+        s.add('sp.new S8 dur', N, *pr.h, N + 1, *pz.flatP(), pz.t0, pz.bcname)
+        s.add('sp.update S8 dur', N, *pr.h, N + 1, *P, pr.t0, pr.bcname)
+        s.var('shift', 4.0)
+        for i in range(N + 1):
+            s.add('let r%d add q%d shift' % (i, i))
+        s.add('sp.new S9 tp', N + 1, *['r%d' % i for i in range(N + 1)], N + 1, *pz.flatP(), pz.bcname)
+        s.add('sp.update S9 tp', N + 1, *q, N + 1, *P, pr.bcname)
         s.add('sp.new S1 dur', N, *pr.h, N + 1, *P, pr.t0, pr.bcname)
         s.add('sp.default S4')
         s.add('sp.update S4 dur', N, *pr.h, N + 1, *P, pr.t0, pr.bcname)
@@ -184,10 +193,13 @@ def run_routes(t):
         s.add('bc Z 0')
         s.add('sp.new S6 dur', N, *pr.h, N + 1, *P, pr.t0, '-')
         s.add('sp.new S7 dur', N, *pr.h, N + 1, *P, pr.t0, 'Z')
-        for nm in ('S1', 'S2', 'S3', 'S4', 'S5', 'S6', 'S7'):
+        for nm in ('S1', 'S2', 'S3', 'S4', 'S5', 'S6', 'S7', 'S8', 'S9'):
             s.add('sp.coeffs', nm, 'c' + nm)
         s.add('sp.meta S2 m2')
         s.add('sp.meta S5 m5')
+        s.add('sp.meta S1 m1')
+        s.add('sp.meta S8 m8')
+        s.add('sp.meta S9 m9')
         # BC constructors
         z = ['0'] * d
         s.add('bc B2 2', *pr.bc['sv'], *pr.bc['ev'])
@@ -203,9 +215,14 @@ def run_routes(t):
                 sc.uf_eq('update(durations) == constructor(durations) c[%d,%d]' % (r, dd), 'cS4.%d.%d' % (r, dd), 'cS1.%d.%d' % (r, dd))
                 sc.uf_eq('constructor(time points) == constructor(durations := differences) c[%d,%d]' % (r, dd), 'cS2.%d.%d' % (r, dd), 'cS3.%d.%d' % (r, dd), real_fallback=True)
                 sc.uf_eq('update(time points) == constructor(time points) c[%d,%d]' % (r, dd), 'cS5.%d.%d' % (r, dd), 'cS2.%d.%d' % (r, dd))
+                sc.uf_eq('update(same durations, other start/points/boundary) == constructor c[%d,%d]' % (r, dd), 'cS8.%d.%d' % (r, dd), 'cS1.%d.%d' % (r, dd))
+                sc.uf_eq('update(time points shifted back) == constructor(time points) c[%d,%d]' % (r, dd), 'cS9.%d.%d' % (r, dd), 'cS2.%d.%d' % (r, dd))
                 sc.uf_eq('defaulted boundary argument == zero boundary state c[%d,%d]' % (r, dd), 'cS6.%d.%d' % (r, dd), 'cS7.%d.%d' % (r, dd))
         E = sc.enc
-        for m in ('m2', 'm5'):
+        for key in ['start', 'end', 'dur'] + ['cum.%d' % i for i in range(N + 1)]:
+            sc.uf_eq('re-update with the same durations and another start time: %s == constructor' % key, 'm8.' + key, 'm1.' + key)
+        sc.uf_node_eq('m8 start time == given start time', 'm8.start', g.varid[pr.t0])
+        for m in ('m2', 'm5', 'm9'):
             sc.int_eq(m + ' segment count', m + '.nseg', N)
             sc.uf_node_eq(m + ' start time == first time point', m + '.start', g.varid['q0'])
             for i in range(N + 1):
